@@ -105,4 +105,20 @@ PROPS = {
                  "reflect.SetInt/SetUint truncate to the field width (modelled as wrap)"],
         assumptions=["int/uint are 64 bit (bitSize 0)", "BindWithDelimiter and CustomFunc variants are not modelled"],
     ),
+    "C01": dict(
+        n_quick=6000, n_thorough=300000, incoq=60,
+        level_text="Theorems C01_* (Props/C01.v): for every well-formed route table in any registration order, every method and path, if echo's radix tree (built by replaying the insertNode call sequence) dispatches to route r with values v then substituting v into r's parsed pattern yields the path byte for byte (one value per parameter). Proved on the order-free specification and transferred through the 3 kLoC refinement proof dispatch(build rs) = spec. Model compared with real echo (route id, ParamNames, ParamValues, c.Path()) on generated tables; the implementation-only predicate rebuilds the path from pattern + observed values.",
+        technique="Coq refinement proof (radix-tree insertion/search = order-free priority search) + soundness invariant + differential correspondence",
+        trusted=["the hand-written goto state machine of Router.Find (parent pointers, backtracking labels) is represented by its structured recursive equivalent find_node on the same tree; tied by outcome comparison on generated tables, not by a proof about the goto code",
+                 "pattern scan of Router.insert modelled by parse_pat/parse_names (validated by the correspondence); net/http URL parsing supplies RawPath/Path",
+                 "theorems cover escape-free patterns without structural duplicates (wf_table); tables where an escaped colon collides with a parameter at the same tree position are known finding D3"], assumptions=["the value array is cleared between requests (C05)"],
+    ),
+    "C02": dict(
+        n_quick=6000, n_thorough=300000, incoq=60,
+        level_text="Theorems C02_* (Props/C02.v): dispatch on the tree echo builds equals the documented static > param > wildcard search with full backtracking over the SET of routes (refinement), hence is invariant under every permutation of the registration order; a route of the request's method that matches the path is always found (never 404/405). Host routers: exact Host match else default (modelled in the glue, compared differentially). Model compared with real echo for several registration orders of each table.",
+        technique="Coq refinement proof + permutation-invariance proof (search_perm) + completeness by induction + differential correspondence across registration orders",
+        trusted=["the hand-written goto state machine of Router.Find (parent pointers, backtracking labels) is represented by its structured recursive equivalent find_node on the same tree; tied by outcome comparison on generated tables, not by a proof about the goto code",
+                 "pattern scan of Router.insert modelled by parse_pat/parse_names (validated by the correspondence); net/http URL parsing supplies RawPath/Path",
+                 "theorems cover escape-free patterns without structural duplicates (wf_table); tables where an escaped colon collides with a parameter at the same tree position are known finding D3"], assumptions=["'a literal route is served by itself' is checked by the implementation-only predicate, not proved"],
+    ),
 }
